@@ -1729,11 +1729,17 @@ class Compiler:
             indent("value = name\n")
         ) if node.bool_names else ""
 
+        # A key that a later dictionary provides is not rendered.
+        later_cond = (
+            " and name.lower() not in map(str.lower, LATER)"
+        ) if node.filters else ""
+
         body += template(
             "for name, value in TARGET.items():\n" +
             indent(bool_cond) +
             indent(
-                "if name.lower() not in EXCLUDE and value is not None:\n" +
+                "if name.lower() not in EXCLUDE and value is not None" +
+                later_cond + ":\n" +
                 indent(bool_cond) +
                 indent(
                     "__append("
@@ -1744,6 +1750,10 @@ class Compiler:
             ),
             TARGET=target,
             EXCLUDE=exclude,
+            LATER=ast.Call(
+                func=load("__chain"), keywords=[],
+                args=list(map(self._engine.cache.get, node.filters)),
+            ),
             QUOTE_FUNC="__quote",
             QUOTE=ast.Constant(node.quote),
             QUOTE_ENTITY=ast.Constant(char2entity(node.quote or '\0')),
